@@ -19,10 +19,22 @@
 //!         (polled, pending, not inside the supplier); the trace records it as 100+u.
 //! mode 4: the tasks are the children of one `futures_util::future::join_all` (shared waker); the root is
 //!         polled only after its waker fired; last answer field = number of root polls.
-//! lookup kind (modes 0,1,3,4): 0 fill_symbol, 1 walk_frame, 2 get_symbol_at_address (only valid for keys with
-//!         cf=0, ci=0, df>0, di>0; otherwise treated as 0)
+//!         Round 4: a non-empty schedule lists group sizes: the root is join_all(groups.map(join_all)) — the nesting the
+//!         processor uses; the poll order (and so the number of root polls) is the one of the flat join_all.
+//! mode 5: REAL multi-threaded tokio runtime. schedule = [worker threads, style, start delay per task ...];
+//!         style 0: every task is tokio::spawn'ed; 1: two spawned join_alls (even / odd tasks); 2: one spawned join_all;
+//!         3: join_all polled by block_on itself. The supplier yields the OS thread whenever it suspends; an observer
+//!         task samples pending_stats the whole time. Only schedule-independent observables are reported (sorted log).
+//! mode 6: one join_all over all tasks polled by hand (root polled only after its waker fired); with more than 30
+//!         children this is JoinAll::Big = FuturesUnordered (per-child wakers). Sorted log, schedule-independent fields.
+//! lookup kind (modes 0,1,3,4,5,6): 0 fill_symbol, 1 walk_frame, 2 get_symbol_at_address (only valid for keys with
+//!         cf=0, ci=0, df>0, di>0; otherwise treated as 0), 3 get_file_path (forwarded to the supplier, must not touch
+//!         slots or counters) followed by fill_symbol.
+//! After every lookup the task itself reads pending_stats()/stats() and checks processed <= requested <= distinct keys,
+//! monotonicity, processed >= distinct keys this task has finished, and that the module's leaf is in stats(); the first
+//! failed check is the 8th answer field (`-` when none).
 //! outc: 0 Ok, 1 NotFound, 2 MissingDebugFileOrId, 3 LoadError, 4 ParseError
-//! answer: OK|HUNG|LOST;log;midreq/midproc/middone;results;req/proc;stats;rounds
+//! answer: OK|HUNG|LOST;log;midreq/midproc/middone;results;req/proc;stats;rounds;obs
 use async_trait::async_trait;
 use breakpad_symbols::{
     FileError, FileKind, FrameWalker, HttpSymbolSupplier, LocateSymbolsResult, Module, SimpleFrame, SimpleModule,
@@ -39,20 +51,24 @@ use std::sync::{Arc, Mutex};
 use std::task::{Context, Poll, Wake, Waker};
 use vharness::*;
 
-const CODE_FILES: [Option<&str>; 5] = [
+const CODE_FILES: [Option<&str>; 7] = [
     None,
     Some("lib0.so"),
     Some("/x/lib0.so"),
     Some("lib1.so"),
     Some("c:\\y\\lib2.dll"),
+    Some("LIB0.SO"),   // differs from 1 only in case
+    Some("lib0.soaa"), // with code id "11": same concatenation as "lib0.so" + "aa11"
 ];
-const LEAVES: [&str; 4] = ["", "lib0.so", "lib1.so", "lib2.dll"];
-const CODE_IDS: [Option<&str>; 3] = [None, Some("AA11"), Some("BB22")];
-const DEBUG_FILES: [Option<&str>; 3] = [None, Some("a.pdb"), Some("b.pdb")];
-const DEBUG_IDS: [Option<&str>; 3] = [
+const LEAF_OF_CF: [usize; 7] = [0, 1, 1, 2, 3, 4, 5];
+const LEAVES: [&str; 6] = ["", "lib0.so", "lib1.so", "lib2.dll", "LIB0.SO", "lib0.soaa"];
+const CODE_IDS: [Option<&str>; 5] = [None, Some("AA11"), Some("BB22"), Some("11"), Some("")];
+const DEBUG_FILES: [Option<&str>; 4] = [None, Some("a.pdb"), Some("b.pdb"), Some("A.PDB")];
+const DEBUG_IDS: [Option<&str>; 4] = [
     None,
     Some("abcd1234-abcd-1234-abcd-abcd12345678-a"),
     Some("abcd1234-abcd-1234-abcd-abcd12345678-b"),
+    Some("abcd1234-abcd-1234-abcd-abcd12345679-a"), // another GUID, same age
 ];
 
 type KeyTuple = (String, Option<String>, Option<String>, Option<String>);
@@ -67,7 +83,7 @@ fn key_tuple(m: &(dyn Module + Sync)) -> KeyTuple {
 }
 
 /// Returns Pending (after waking itself) the scripted number of times.
-struct Suspend(u32);
+struct Suspend(u32, bool);
 impl Future for Suspend {
     type Output = ();
     fn poll(mut self: Pin<&mut Self>, cx: &mut Context<'_>) -> Poll<()> {
@@ -75,6 +91,10 @@ impl Future for Suspend {
             Poll::Ready(())
         } else {
             self.0 -= 1;
+            if self.1 {
+                // multi-threaded runs: give the other workers a chance to run into the held slot
+                std::thread::yield_now();
+            }
             cx.waker().wake_by_ref();
             Poll::Pending
         }
@@ -88,6 +108,8 @@ struct Mock {
     /// the task the executor is polling right now, and which tasks are inside locate_symbols
     current: Arc<AtomicUsize>,
     in_sup: Arc<Mutex<Vec<bool>>>,
+    threaded: bool,
+    file_calls: Arc<AtomicUsize>,
 }
 
 struct InSup(Arc<Mutex<Vec<bool>>>, usize);
@@ -128,7 +150,7 @@ impl SymbolSupplier for Mock {
             *b = true;
         }
         let _guard = InSup(self.in_sup.clone(), me);
-        Suspend(susp).await;
+        Suspend(susp, self.threaded).await;
         match outc {
             0 => Ok(LocateSymbolsResult {
                 symbols: SymbolFile::from_bytes(sym_text(id.unwrap()).as_bytes())?,
@@ -154,6 +176,7 @@ impl SymbolSupplier for Mock {
         _module: &(dyn Module + Sync),
         _file_kind: FileKind,
     ) -> Result<PathBuf, FileError> {
+        self.file_calls.fetch_add(1, Ordering::SeqCst);
         Err(FileError::NotFound)
     }
 }
@@ -210,18 +233,80 @@ fn name_to_class(name: Option<&str>) -> String {
     }
 }
 
-async fn run_task(
+/// what a task checks by itself after each of its lookups (schedule-independent invariants of the counters)
+struct Obs {
+    nd: u64,
+    leaf_of_key: Vec<String>,
+    viol: Mutex<Option<String>>,
+    threaded: bool,
+    log: Arc<Mutex<Vec<String>>>,
+    file_calls: Arc<AtomicUsize>,
+    file_wanted: AtomicUsize,
+}
+impl Obs {
+    fn fail(&self, msg: String) {
+        let mut v = self.viol.lock().unwrap();
+        if v.is_none() {
+            *v = Some(msg.replace(';', ",").replace('|', "/").replace('\n', " "));
+        }
+    }
+    fn report(&self) -> String {
+        if self.file_calls.load(Ordering::SeqCst) != self.file_wanted.load(Ordering::SeqCst) {
+            self.fail(format!(
+                "get_file_path was called {} times but the supplier's locate_file ran {} times",
+                self.file_wanted.load(Ordering::SeqCst),
+                self.file_calls.load(Ordering::SeqCst)
+            ));
+        }
+        self.viol.lock().unwrap().clone().unwrap_or_else(|| "-".to_string())
+    }
+}
+
+trait Sink {
+    fn push_class(&self, s: String);
+}
+impl Sink for RefCell<Vec<String>> {
+    fn push_class(&self, s: String) {
+        self.borrow_mut().push(s)
+    }
+}
+impl Sink for Mutex<Vec<String>> {
+    fn push_class(&self, s: String) {
+        self.lock().unwrap().push(s)
+    }
+}
+
+async fn run_task<S: Sink + ?Sized>(
     sym: &Symbolizer,
     mods: &[SimpleModule],
     lookups: Vec<(usize, u8)>,
-    out: &RefCell<Vec<String>>,
+    out: &S,
+    obs: &Obs,
 ) {
+    let mut finished: Vec<usize> = vec![];
+    let mut last = (0u64, 0u64);
     for (k, kind) in lookups {
         let m = &mods[k];
         let simple_ok = m.code_file.is_none()
             && m.code_identifier.is_none()
             && m.debug_file.is_some()
             && m.debug_id.is_some();
+        if kind == 3 {
+            let before = (sym.pending_stats(), obs.log.lock().unwrap().len());
+            obs.file_wanted.fetch_add(1, Ordering::SeqCst);
+            if sym.get_file_path(m, FileKind::BreakpadSym).await.is_ok() {
+                obs.fail("get_file_path returned Ok although the supplier answered NotFound".to_string());
+            }
+            if !obs.threaded {
+                let after = (sym.pending_stats(), obs.log.lock().unwrap().len());
+                if before.0.symbols_requested != after.0.symbols_requested
+                    || before.0.symbols_processed != after.0.symbols_processed
+                    || before.1 != after.1
+                {
+                    obs.fail(format!("get_file_path changed the pending counters or asked for symbols (key {})", k));
+                }
+            }
+        }
         let class = match kind {
             1 => {
                 let mut w = Walker::default();
@@ -250,7 +335,33 @@ async fn run_task(
                 }
             }
         };
-        out.borrow_mut().push(class);
+        if !finished.contains(&k) {
+            finished.push(k);
+        }
+        let p = sym.pending_stats();
+        let (rq, pr) = (p.symbols_requested, p.symbols_processed);
+        if pr > rq || rq > obs.nd {
+            obs.fail(format!(
+                "after a lookup of key {}: requested={} processed={} with {} distinct modules in the whole run",
+                k, rq, pr, obs.nd
+            ));
+        }
+        if (pr as usize) < finished.len() {
+            obs.fail(format!(
+                "a task finished lookups of {} distinct modules but processed={} (requested={})",
+                finished.len(),
+                pr,
+                rq
+            ));
+        }
+        if rq < last.0 || pr < last.1 {
+            obs.fail(format!("pending counters went backwards: {}/{} after {}/{}", rq, pr, last.0, last.1));
+        }
+        last = (rq, pr);
+        if !sym.stats().contains_key(&obs.leaf_of_key[k]) {
+            obs.fail(format!("lookup of key {} finished but stats() has no entry for its leaf name", k));
+        }
+        out.push_class(class);
     }
 }
 
@@ -444,10 +555,134 @@ fn run_files(tasks: &[Vec<(usize, u8)>], mods: &[SimpleModule], scripts: &[(u32,
     ids.extend(reqs.iter().map(|x| x.to_string()));
     let dash = |s: String| if s.is_empty() { "-".to_string() } else { s };
     format!(
-        "{};{};-;{};-;-;0",
+        "{};{};-;{};-;-;0;-",
         status,
         dash(ids.join(".")),
         outs.iter().map(|o| dash(o.borrow().join("."))).collect::<Vec<_>>().join("|")
+    )
+}
+
+fn fmt_stats(symbolizer: &Symbolizer) -> String {
+    let mut stats: Vec<(String, bool, bool)> = symbolizer
+        .stats()
+        .into_iter()
+        .map(|(k, v)| {
+            let id = match LEAVES.iter().position(|l| *l == k) {
+                Some(i) => i.to_string(),
+                None => format!("?{}", k),
+            };
+            (id, v.loaded_symbols, v.corrupt_symbols)
+        })
+        .collect();
+    stats.sort();
+    let s = stats
+        .iter()
+        .map(|(k, l, c)| format!("{}:{}:{}", k, *l as u8, *c as u8))
+        .collect::<Vec<_>>()
+        .join(",");
+    if s.is_empty() {
+        "-".to_string()
+    } else {
+        s
+    }
+}
+
+/// mode 5: the real Symbolizer shared by tasks on a multi-threaded tokio runtime
+fn run_threaded(
+    symbolizer: Symbolizer,
+    mods: Vec<SimpleModule>,
+    tasks: Vec<Vec<(usize, u8)>>,
+    sched: &[usize],
+    log: Arc<Mutex<Vec<String>>>,
+    obs: Arc<Obs>,
+) -> String {
+    let workers = sched.first().copied().unwrap_or(2).clamp(1, 8);
+    let style = sched.get(1).copied().unwrap_or(0);
+    let nt = tasks.len();
+    let sym = Arc::new(symbolizer);
+    let mods = Arc::new(mods);
+    let outs: Vec<Arc<Mutex<Vec<String>>>> = (0..nt).map(|_| Arc::new(Mutex::new(vec![]))).collect();
+    let rt = tokio::runtime::Builder::new_multi_thread()
+        .worker_threads(workers)
+        .enable_all()
+        .build()
+        .expect("runtime");
+    let done = Arc::new(AtomicBool::new(false));
+    let status = rt.block_on(async {
+        // observer: samples the counters for the whole run
+        let (osym, oobs, odone) = (sym.clone(), obs.clone(), done.clone());
+        let observer = tokio::spawn(async move {
+            let mut last = (0u64, 0u64);
+            while !odone.load(Ordering::SeqCst) {
+                let p = osym.pending_stats();
+                let (rq, pr) = (p.symbols_requested, p.symbols_processed);
+                if pr > rq || rq > oobs.nd {
+                    oobs.fail(format!("observer saw requested={} processed={} with {} distinct modules", rq, pr, oobs.nd));
+                }
+                if rq < last.0 || pr < last.1 {
+                    oobs.fail(format!("observer saw the counters go backwards: {}/{} after {}/{}", rq, pr, last.0, last.1));
+                }
+                last = (rq, pr);
+                tokio::task::yield_now().await;
+            }
+        });
+        let mk = |i: usize| {
+            let (sym, mods, out, obs, lk) = (sym.clone(), mods.clone(), outs[i].clone(), obs.clone(), tasks[i].clone());
+            let delay = sched.get(2 + i).copied().unwrap_or(0);
+            async move {
+                for _ in 0..delay {
+                    tokio::task::yield_now().await; // a task that starts late
+                }
+                run_task(&sym, &mods, lk, &*out, &obs).await;
+            }
+        };
+        let all = async {
+            match style {
+                0 => {
+                    let hs: Vec<_> = (0..nt).map(|i| tokio::spawn(mk(i))).collect();
+                    for h in futures_util::future::join_all(hs).await {
+                        h.expect("task panicked");
+                    }
+                }
+                1 => {
+                    let ga: Vec<_> = (0..nt).filter(|i| i % 2 == 0).map(&mk).collect();
+                    let gb: Vec<_> = (0..nt).filter(|i| i % 2 == 1).map(&mk).collect();
+                    let ha = tokio::spawn(futures_util::future::join_all(ga));
+                    let hb = tokio::spawn(futures_util::future::join_all(gb));
+                    ha.await.expect("task panicked");
+                    hb.await.expect("task panicked");
+                }
+                2 => {
+                    let g: Vec<_> = (0..nt).map(&mk).collect();
+                    tokio::spawn(futures_util::future::join_all(g)).await.expect("task panicked");
+                }
+                _ => {
+                    let g: Vec<_> = (0..nt).map(&mk).collect();
+                    futures_util::future::join_all(g).await;
+                }
+            }
+        };
+        let st = match tokio::time::timeout(std::time::Duration::from_secs(10), all).await {
+            Ok(()) => "OK",
+            Err(_) => "LOST",
+        };
+        done.store(true, Ordering::SeqCst);
+        let _ = observer.await;
+        st
+    });
+    rt.shutdown_background();
+    log.lock().unwrap().sort_by_key(|e| e.parse::<usize>().unwrap_or(usize::MAX));
+    let dash = |s: String| if s.is_empty() { "-".to_string() } else { s };
+    let p = sym.pending_stats();
+    format!(
+        "{};{};-;{};{}/{};{};0;{}",
+        status,
+        dash(log.lock().unwrap().join(".")),
+        outs.iter().map(|o| dash(o.lock().unwrap().join("."))).collect::<Vec<_>>().join("|"),
+        p.symbols_requested,
+        p.symbols_processed,
+        fmt_stats(&sym),
+        obs.report()
     )
 }
 
@@ -465,10 +700,12 @@ fn run(line: &str) -> String {
     let mut mods: Vec<SimpleModule> = vec![];
     let mut keys: Vec<KeyTuple> = vec![];
     let mut scripts: Vec<(u32, u8)> = vec![];
+    let mut cfs: Vec<usize> = vec![];
     for _ in 0..nk {
         let susp = t.u64() as u32;
         let outc = t.u64() as u8;
         let (cf, ci, df, di) = (t.usize(), t.usize(), t.usize(), t.usize());
+        cfs.push(cf);
         let m = SimpleModule {
             code_file: CODE_FILES[cf].map(String::from),
             code_identifier: CODE_IDS[ci].map(|s| CodeId::new(s.to_string())),
@@ -489,13 +726,37 @@ fn run(line: &str) -> String {
     let log = Arc::new(Mutex::new(Vec::<String>::new()));
     let current = Arc::new(AtomicUsize::new(usize::MAX));
     let in_sup = Arc::new(Mutex::new(vec![false; nt]));
+    let file_calls = Arc::new(AtomicUsize::new(0));
+    let mut distinct: Vec<usize> = vec![];
+    for lk in &tasks {
+        for &(k, _) in lk {
+            if !distinct.contains(&k) {
+                distinct.push(k);
+            }
+        }
+    }
+    let obs = Arc::new(Obs {
+        nd: distinct.len() as u64,
+        leaf_of_key: cfs.iter().map(|&cf| LEAVES[LEAF_OF_CF[cf]].to_string()).collect(),
+        viol: Mutex::new(None),
+        threaded: mode == 5,
+        log: log.clone(),
+        file_calls: file_calls.clone(),
+        file_wanted: AtomicUsize::new(0),
+    });
     let symbolizer = Symbolizer::new(Mock {
         keys,
         scripts,
         log: log.clone(),
         current: current.clone(),
         in_sup: in_sup.clone(),
+        threaded: mode == 5,
+        file_calls: file_calls.clone(),
     });
+    if mode == 5 {
+        return run_threaded(symbolizer, mods, tasks, &sched, log, obs);
+    }
+    let obs = &*obs;
     let outs: Vec<RefCell<Vec<String>>> = (0..nt).map(|_| RefCell::new(vec![])).collect();
     let flags: Vec<Arc<Flag>> = (0..nt).map(|_| Arc::new(Flag(AtomicBool::new(true)))).collect();
     let wakers: Vec<Waker> = flags.iter().map(|f| Waker::from(f.clone())).collect();
@@ -503,26 +764,48 @@ fn run(line: &str) -> String {
     let mut status = "OK";
     let mut rounds = 0usize;
     let mid;
-    if mode == 4 {
-        // the children of one join_all share the root's waker
+    if mode == 4 || mode == 6 {
+        // the children of one join_all share the root's waker (<= 30 children; above that join_all is a
+        // FuturesUnordered with one waker per child — mode 6)
         let root_flag = Arc::new(Flag(AtomicBool::new(true)));
         let root_waker = Waker::from(root_flag.clone());
-        let children: Vec<Pin<Box<dyn Future<Output = ()> + '_>>> = tasks
+        let mut children: Vec<Pin<Box<dyn Future<Output = ()> + '_>>> = tasks
             .iter()
             .enumerate()
             .map(|(i, lk)| {
                 let b: Pin<Box<dyn Future<Output = ()> + '_>> =
-                    Box::pin(run_task(&symbolizer, &mods, lk.clone(), &outs[i]));
+                    Box::pin(run_task(&symbolizer, &mods, lk.clone(), &outs[i], obs));
                 b
             })
             .collect();
-        let mut root = Box::pin(futures_util::future::join_all(children));
+        let mut root: Pin<Box<dyn Future<Output = ()> + '_>> = if mode == 4 && !sched.is_empty() {
+            // nested: join_all over groups, each group a join_all over consecutive children
+            let mut groups = vec![];
+            let mut it = children.drain(..);
+            for &g in &sched {
+                let grp: Vec<_> = it.by_ref().take(g).collect();
+                if !grp.is_empty() {
+                    groups.push(futures_util::future::join_all(grp));
+                }
+            }
+            let rest: Vec<_> = it.collect();
+            if !rest.is_empty() {
+                groups.push(futures_util::future::join_all(rest));
+            }
+            Box::pin(async move {
+                futures_util::future::join_all(groups).await;
+            })
+        } else {
+            Box::pin(async move {
+                futures_util::future::join_all(children).await;
+            })
+        };
         loop {
             if !root_flag.0.load(Ordering::SeqCst) {
                 status = "LOST";
                 break;
             }
-            if rounds >= 10_000 {
+            if rounds >= 100_000 {
                 status = "HUNG";
                 break;
             }
@@ -533,6 +816,10 @@ fn run(line: &str) -> String {
                 break;
             }
         }
+        if mode == 6 {
+            rounds = 0;
+            log.lock().unwrap().sort_by_key(|e| e.parse::<usize>().unwrap_or(usize::MAX));
+        }
         mid = "-".to_string();
     } else {
         let mut futs: Vec<Option<Pin<Box<dyn Future<Output = ()> + '_>>>> = tasks
@@ -540,7 +827,7 @@ fn run(line: &str) -> String {
             .enumerate()
             .map(|(i, lk)| {
                 let b: Pin<Box<dyn Future<Output = ()> + '_>> =
-                    Box::pin(run_task(&symbolizer, &mods, lk.clone(), &outs[i]));
+                    Box::pin(run_task(&symbolizer, &mods, lk.clone(), &outs[i], obs));
                 Some(b)
             })
             .collect();
@@ -636,7 +923,7 @@ fn run(line: &str) -> String {
     stats.sort();
     let dash = |s: String| if s.is_empty() { "-".to_string() } else { s };
     format!(
-        "{};{};{};{};{}/{};{};{}",
+        "{};{};{};{};{}/{};{};{};{}",
         status,
         dash(log.lock().unwrap().join(".")),
         mid,
@@ -653,7 +940,8 @@ fn run(line: &str) -> String {
                 .collect::<Vec<_>>()
                 .join(",")
         ),
-        rounds
+        rounds,
+        obs.report()
     )
 }
 
